@@ -120,7 +120,13 @@ def main(argv):
                         head = mm.group(1)
                         break
                 sites.append((f, head, line))
-        unknown = [s for s in sites if (s[0], s[1]) not in KNOWN_STO_SITES]
+        # a site inside a function that this run lowered (e.g. a new helper extracted from a function under contract and lowered with
+        # it) is under contract: its std::sto* call is the model's call, with the model's exceptions
+        lowered_names = set()
+        for b in chk.built.values():
+            for cn in getattr(b.lowered, "funcs", {}):
+                lowered_names.add(cn.split("__")[0])
+        unknown = [s for s in sites if (s[0], s[1]) not in KNOWN_STO_SITES and not any(cn == s[1] or cn.endswith("_" + s[1]) for cn in lowered_names)]
         chk.extra_cov["sto_call_sites"] = [{"file": f, "function": fn, "line": ln, "status": KNOWN_STO_SITES.get((f, fn), "NEW - not under contract")}
                                            for f, fn, ln in sites]
         # structural guard check for the two stoi sites outside utilities.cpp
